@@ -1330,9 +1330,7 @@ class Exec:
                     res.append(oidx[p] + to_z3(x, "int") if not (isinstance(x, int) and x == 0) else oidx[p])
                 else:
                     g = x.sel(*oidx[p:p + w])
-                    dd = len(res)
-                    dimz = to_z3(a.shape[dd], "int")
-                    res.append(z3.If(g < 0, g + dimz, g))
+                    res.append(g)   # index arrays are required to hold indices in [0, size): see check_gather
             return tuple(res)
         if nout == 0:
             return a.sel(*mp(()))
@@ -1382,9 +1380,11 @@ class Exec:
         if not self.ctx.options.get("index_checks", True):
             return
         dz = to_z3(a.shape[d], "int")
-        g = forall_ranges([(0, s) for s in i.shape], lambda *o: z3.And(i.sel(*o) >= -dz, i.sel(*o) < dz),
+        # stricter than numpy on purpose: a negative entry of an index ARRAY would silently wrap around; for connectivity
+        # tables that is always a defect (e.g. a -1 / fill value used as an index), so it is an obligation
+        g = forall_ranges([(0, s) for s in i.shape], lambda *o: z3.And(i.sel(*o) >= 0, i.sel(*o) < dz),
                           patterns_fn=lambda *o: [i.sel(*o)])
-        self.oblige("index_gather", g, f"every entry of the index array is within [-size, size) ({ast.unparse(n)[:50]})", n)
+        self.oblige("index_gather", g, f"every entry of the index array is within [0, size) ({ast.unparse(n)[:50]})", n)
 
     def norm_slice(self, sl, dim, n):
         if sl.step is not None and sl.step != 1:
